@@ -116,18 +116,18 @@ impl FixtureDatabase {
 
         // If not a usage, check if we're on a fixture definition line
         let target_line = (line + 1) as usize; // Convert from 0-based to 1-based
-        let content = self.get_file_content(file_path)?;
-        let line_content = content.lines().nth(target_line.saturating_sub(1))?;
-        let word_at_cursor = self.extract_word_at_position(line_content, character as usize)?;
 
-        // Check if this word matches a fixture definition at this line
-        if let Some(definitions) = self.definitions.get(&word_at_cursor) {
-            for def in definitions.iter() {
-                if def.file_path == file_path && def.line == target_line {
-                    // Verify cursor is within the fixture name
-                    if character as usize >= def.start_char && (character as usize) < def.end_char {
-                        return Some(def.clone());
-                    }
+        // Check if the cursor is on the name span of a fixture definition at this line.
+        // The span carries the function name, which differs from the fixture name for
+        // `@pytest.fixture(name="...")`, so match by position rather than by word.
+        for entry in self.definitions.iter() {
+            for def in entry.value().iter() {
+                if def.file_path == file_path
+                    && def.line == target_line
+                    && character as usize >= def.start_char
+                    && (character as usize) < def.end_char
+                {
+                    return Some(def.clone());
                 }
             }
         }
@@ -377,14 +377,16 @@ impl FixtureDatabase {
         for entry in self.definitions.iter() {
             for def in entry.value().iter() {
                 if def.file_path == file_path && def.line == target_line {
-                    if let Some(ref word) = word_at_cursor {
-                        if word == &def.name {
-                            info!(
-                                "Found fixture definition name at cursor position: {}",
-                                def.name
-                            );
-                            return Some(def.name.clone());
-                        }
+                    // On the name span (the function name, which differs from the
+                    // fixture name for `@pytest.fixture(name="...")`), or on the word
+                    let on_name_span = character as usize >= def.start_char
+                        && (character as usize) < def.end_char;
+                    if on_name_span || word_at_cursor.as_ref() == Some(&def.name) {
+                        info!(
+                            "Found fixture definition name at cursor position: {}",
+                            def.name
+                        );
+                        return Some(def.name.clone());
                     }
                 }
             }
